@@ -8,6 +8,8 @@ mod c07;
 mod c08;
 mod c09;
 mod c10;
+mod c11;
+mod c12;
 mod c13;
 mod c14;
 mod c15;
@@ -17,6 +19,7 @@ mod cursor_bfs;
 mod files;
 mod qcheck;
 mod query;
+mod scen;
 mod sorter_util;
 
 use vlib::report::{quiet_panics, read_replay, Tier};
@@ -54,6 +57,8 @@ fn main() {
             "C06" => c06::replay(case),
             "C07" => c07::replay(case),
             "C08" => c08::replay(case),
+            "C11" => c11::replay(case),
+            "C12" => c12::replay(case),
             "C03" => c03::replay(case),
             _ => usage(),
         }
@@ -77,6 +82,8 @@ fn main() {
             "C06" => c06::run(tier),
             "C07" => c07::run(tier),
             "C08" => c08::run(tier),
+            "C11" => c11::run(tier),
+            "C12" => c12::run(tier),
             "C03" => c03::run(tier),
             _ => usage(),
         }
